@@ -9,7 +9,7 @@ Extraction "model.ml" stepM vt_new feed_str vt_feed vt_flush vt_dump vt_text vt_
   vt_size vt_ckm collector_flush unwrap_all feedM execute input2 find_arm feed_arms
   buf_text trim_end is_whitespace parser_dump term_dump init_parser hi_threshold
   holds_C02_state holds_C02_call holds_C04 holds_C05 holds_C06 holds_C06_modes holds_C06_resize holds_C07 holds_C08 holds_C13
-  holds_C15 holds_C16 holds_C16_resized holds_C17 holds_C17_resize holds_C18 holds_C18_resize
+  holds_C15 holds_C16 holds_C16_resized holds_C17 holds_C17_switch holds_C17_resize holds_C18 holds_C18_resize
   tabs_are_default holds_C19 holds_C03_sgr spec_emit spec_feed spec_run parser_eqb holds_C20 claims_inert known_C20
   holds_C09 holds_C10 holds_C11 holds_C12 holds_C12_lines known_C12 kf1_C11 kf2_C11 kf3_C11 holds_C14
   tview vt_eqb visible_eqb logical_t curs.
